@@ -397,6 +397,50 @@ type vfGateConn struct {
 	deep     bool
 	secret   string
 	identTLS bool
+	tap      *vfGateTap // every byte read off the raw socket (what travels underneath TLS)
+	poisoned bool       // audit A2: the server answered in cleartext underneath TLS; the client gives the connection up
+}
+
+// vfGateTap records what is read off the raw socket.
+type vfGateTap struct {
+	net.Conn
+	mu  sync.Mutex
+	got []byte
+}
+
+func (t *vfGateTap) Read(p []byte) (int, error) {
+	n, err := t.Conn.Read(p)
+	if n > 0 {
+		t.mu.Lock()
+		t.got = append(t.got, p[:n]...)
+		t.mu.Unlock()
+	}
+	return n, err
+}
+
+func (t *vfGateTap) mark() int {
+	t.mu.Lock()
+	defer t.mu.Unlock()
+	return len(t.got)
+}
+
+func (t *vfGateTap) since(m int) []byte {
+	t.mu.Lock()
+	defer t.mu.Unlock()
+	return append([]byte(nil), t.got[m:]...)
+}
+
+// vfGateParseFrame: a complete protocol frame at the start of raw bytes, or nil.
+func vfGateParseFrame(b []byte) *vfGateFrame {
+	if len(b) < 8 {
+		return nil
+	}
+	size := int32(binary.BigEndian.Uint32(b[:4]))
+	typ := int32(binary.BigEndian.Uint32(b[4:8]))
+	if size < 4 || size > 1<<16 || typ < 0 || typ > 2 || len(b) < int(size)+4 {
+		return nil
+	}
+	return &vfGateFrame{typ, append([]byte(nil), b[8:4+size]...)}
 }
 
 func (in *vfGateInst) dial() (*vfGateConn, error) {
@@ -407,7 +451,7 @@ func (in *vfGateInst) dial() (*vfGateConn, error) {
 	if _, err := raw.Write([]byte("  V2")); err != nil {
 		return nil, err
 	}
-	c := &vfGateConn{inst: in, raw: raw, cur: raw, vnow: 1000}
+	c := &vfGateConn{inst: in, raw: raw, cur: raw, vnow: 1000, tap: &vfGateTap{Conn: raw}}
 	in.nextID++
 	c.id = in.nextID
 	me := raw.LocalAddr().String()
@@ -473,6 +517,13 @@ func (c *vfGateConn) readFrame(d time.Duration) (*vfGateFrame, error) {
 	return &vfGateFrame{typ, data}, nil
 }
 
+func vfGateMin(a, b int) int {
+	if a < b {
+		return a
+	}
+	return b
+}
+
 func vfGateIsTimeout(err error) bool {
 	ne, ok := err.(net.Error)
 	return ok && ne.Timeout()
@@ -518,6 +569,8 @@ type vfGateCmd struct {
 	Secret string
 	// IDENTIFY
 	BodyOK, FN, TLSv1, HbOff bool
+	HbOn                     bool // a permitted positive heartbeat_interval (audit B24: re-enables heartbeats)
+	Ob                       int  // output_buffer_size, 0 = absent (audit A2: IDENTIFY again after the TLS upgrade)
 	Cert                     string // nohs | nocert | untrusted | trusted
 	// MPUB
 	Count int
@@ -534,7 +587,15 @@ func (k vfGateCmd) Line() string {
 		if cn, ok := vfGateCN[cert]; ok {
 			cert += ":" + vfGateHexS(cn)
 		}
-		return fmt.Sprintf("IDENTIFY %s %s %s %s %s", vfGateB(k.BodyOK), vfGateB(k.FN), vfGateB(k.TLSv1), vfGateB(k.HbOff), cert)
+		hb := vfGateB(k.HbOff)
+		if k.HbOn {
+			hb = "2"
+		}
+		l := fmt.Sprintf("IDENTIFY %s %s %s %s %s", vfGateB(k.BodyOK), vfGateB(k.FN), vfGateB(k.TLSv1), hb, cert)
+		if k.Ob != 0 {
+			l += fmt.Sprintf(" ob=%d", k.Ob)
+		}
+		return l
 	case "AUTH":
 		return fmt.Sprintf("AUTH %s %d %s", vfGateList(k.Args), k.Size, vfGateHexS(k.Secret))
 	case "PUB", "DPUB":
@@ -555,6 +616,25 @@ func (k vfGateCmd) Line() string {
 		return k.Name
 	}
 	return "UNK " + vfGateHexS(k.Unk)
+}
+
+// identBody builds the IDENTIFY JSON from the op's fields (one place: generator, forced plans, replay).
+func (k *vfGateCmd) identBody() {
+	if !k.BodyOK {
+		k.Body = []byte("{{")
+	} else {
+		m := map[string]interface{}{"client_id": "v", "hostname": "h", "feature_negotiation": k.FN, "tls_v1": k.TLSv1}
+		if k.HbOn {
+			m["heartbeat_interval"] = 60000 // the permitted maximum: no heartbeat frame within a scenario's life
+		} else if k.HbOff {
+			m["heartbeat_interval"] = -1
+		}
+		if k.Ob != 0 {
+			m["output_buffer_size"] = k.Ob
+		}
+		k.Body, _ = json.Marshal(m)
+	}
+	k.Size = len(k.Body)
 }
 
 func (k vfGateCmd) Wire() []byte {
@@ -637,6 +717,7 @@ func (c *vfGateConn) run(k vfGateCmd, ans vfGateAns, last bool) (op string, impl
 	closed := false
 	firstErr := ""
 	c.cur.SetWriteDeadline(time.Now().Add(5 * time.Second))
+	tapMark := c.tap.mark()
 	_, werr := c.cur.Write(k.Wire())
 	if werr != nil {
 		replies = append(replies, "WRITE-ERR")
@@ -671,6 +752,25 @@ func (c *vfGateConn) run(k vfGateCmd, ans vfGateAns, last bool) (op string, impl
 		c.closed = true
 	} else {
 		f, err := c.readFrame(5 * time.Second)
+		if err != nil && !vfGateIsTimeout(err) && c.tlsDone && k.Name == "IDENTIFY" && k.Ob != 0 {
+			// audit A2 (known finding second-identify-cleartext, fix F30): the answer to an IDENTIFY with an
+			// output_buffer_size sent inside TLS arrived underneath it, as a plain frame on the raw socket
+			// (with output_buffer_size -1 the frame leaves in three TCP writes: read the rest off the raw socket)
+			pf := vfGateParseFrame(c.tap.since(tapMark))
+			for dl := time.Now().Add(5 * time.Second); pf == nil && time.Now().Before(dl); pf = vfGateParseFrame(c.tap.since(tapMark)) {
+				var b [256]byte
+				c.raw.SetReadDeadline(time.Now().Add(200 * time.Millisecond))
+				if _, rerr := c.tap.Read(b[:]); rerr != nil && !vfGateIsTimeout(rerr) {
+					break
+				}
+			}
+			if pf != nil {
+				in.out.Fail("second-identify-cleartext", fmt.Sprintf("IDENTIFY with output_buffer_size %d sent inside TLS (tls-required=%d) was answered by a CLEARTEXT frame on the raw socket (%q; the TLS layer says: %v): the output writer was re-created on the raw connection [%s]",
+					k.Ob, in.cfg.DocTLSRequired(), pf.data[:vfGateMin(len(pf.data), 24)], err, op))
+				f, err = pf, nil
+				c.poisoned = true // the line continues as the answer the server did send; the client then gives up
+			}
+		}
 		switch {
 		case err != nil && vfGateIsTimeout(err):
 			replies = append(replies, "TIMEOUT")
@@ -698,7 +798,7 @@ func (c *vfGateConn) run(k vfGateCmd, ans vfGateAns, last bool) (op string, impl
 				if k.Cert == "nohs" {
 					c.cur.Write([]byte("GET / HTTP/1.0\r\n\r\n"))
 				} else {
-					tc := tls.Client(c.raw, c.clientTLSConfig(k.Cert))
+					tc := tls.Client(c.tap, c.clientTLSConfig(k.Cert))
 					tc.SetDeadline(time.Now().Add(5 * time.Second))
 					if err := tc.Handshake(); err == nil {
 						tc.SetDeadline(time.Time{})
@@ -916,7 +1016,7 @@ func (c *vfGateConn) runPipelined(k vfGateCmd, behind []vfGateCmd, ans vfGateAns
 		replies = append(replies, fmt.Sprintf("ident:tls=%s:auth=%s", vfGateB(r.TLSv1), vfGateB(r.AuthRequired)))
 		if r.TLSv1 {
 			okTLS := false
-			tc := tls.Client(c.raw, c.clientTLSConfig(k.Cert))
+			tc := tls.Client(c.tap, c.clientTLSConfig(k.Cert))
 			tc.SetDeadline(time.Now().Add(5 * time.Second))
 			if err := tc.Handshake(); err == nil {
 				tc.SetDeadline(time.Time{})
@@ -1153,16 +1253,16 @@ func (in *vfGateInst) identify(c *vfGateConn) vfGateCmd {
 	if c.tlsDone {
 		k.Cert = "nohs" // a second handshake is not attempted by this client
 	}
-	if !k.BodyOK {
-		k.Body = []byte("{{")
-	} else {
-		m := map[string]interface{}{"client_id": "v", "hostname": "h", "feature_negotiation": k.FN, "tls_v1": k.TLSv1}
-		if k.HbOff {
-			m["heartbeat_interval"] = -1
-		}
-		k.Body, _ = json.Marshal(m)
+	if !k.HbOff && r.Intn(6) == 0 {
+		k.HbOn = true // audit B24: a positive interval after `-1` re-enables heartbeats, SUB is accepted again
 	}
-	k.Size = len(k.Body)
+	if c.tlsDone && r.Intn(2) == 0 {
+		// audit A2: IDENTIFY again, with an output_buffer_size, after the TLS upgrade — the answer (and everything
+		// after it) must still come through TLS
+		k.BodyOK, k.FN, k.TLSv1 = true, r.Intn(3) == 0, false
+		k.Ob = []int{-1, 64, 4096}[r.Intn(3)]
+	}
+	k.identBody()
 	return k
 }
 
@@ -1387,12 +1487,11 @@ func (in *vfGateInst) scenario() {
 			if deep {
 				k.HbOff = false
 			}
-			m := map[string]interface{}{"client_id": "v", "hostname": "h", "feature_negotiation": true, "tls_v1": true}
-			if k.HbOff {
-				m["heartbeat_interval"] = -1
+			if deep {
+				k.HbOn = false
 			}
-			k.Body, _ = json.Marshal(m)
-			k.Size = len(k.Body)
+			k.Ob = 0
+			k.identBody()
 		}
 	}
 	if pipe := vfEnvInt("VERIF_GATE_PIPE", 8); in.cfg.Cert && pipe > 0 && r.Intn(pipe) == 0 {
@@ -1437,7 +1536,7 @@ func (in *vfGateInst) scenario() {
 	if deep {
 		steps = 3 + r.Intn(6)
 	}
-	for i := 0; i < len(plan)+steps && !c.closed; i++ {
+	for i := 0; i < len(plan)+steps && !c.closed && !c.poisoned; i++ {
 		var k vfGateCmd
 		if i < len(plan) {
 			k = plan[i]
@@ -1834,21 +1933,18 @@ func (in *vfGateInst) parseCmd(w []string) (vfGateCmd, error) {
 	k := vfGateCmd{Name: w[0]}
 	switch w[0] {
 	case "IDENTIFY":
-		if len(w) != 6 {
+		if len(w) != 6 && len(w) != 7 {
 			return k, bad
 		}
-		k.BodyOK, k.FN, k.TLSv1, k.HbOff = w[1] == "1", w[2] == "1", w[3] == "1", w[4] == "1"
+		k.BodyOK, k.FN, k.TLSv1, k.HbOff, k.HbOn = w[1] == "1", w[2] == "1", w[3] == "1", w[4] == "1", w[4] == "2"
 		k.Cert = strings.SplitN(w[5], ":", 2)[0]
-		if !k.BodyOK {
-			k.Body = []byte("{{")
-		} else {
-			m := map[string]interface{}{"client_id": "v", "hostname": "h", "feature_negotiation": k.FN, "tls_v1": k.TLSv1}
-			if k.HbOff {
-				m["heartbeat_interval"] = -1
+		if len(w) == 7 {
+			if !strings.HasPrefix(w[6], "ob=") {
+				return k, bad
 			}
-			k.Body, _ = json.Marshal(m)
+			k.Ob = atoi(w[6][3:])
 		}
-		k.Size = len(k.Body)
+		k.identBody()
 	case "AUTH":
 		if len(w) != 4 {
 			return k, bad
@@ -2011,7 +2107,7 @@ func TestVerifGateReplay(t *testing.T) {
 				var id int
 				fmt.Sscanf(w[1], "%d", &id)
 				c := conns[id]
-				if c == nil || c.closed {
+				if c == nil || c.closed || c.poisoned {
 					continue
 				}
 				fmt.Sscanf(w[2], "%d", &c.vnow)
@@ -2044,7 +2140,7 @@ func TestVerifGateReplay(t *testing.T) {
 				var id int
 				fmt.Sscanf(w[1], "%d", &id)
 				c := conns[id]
-				if c == nil || c.closed {
+				if c == nil || c.closed || c.poisoned {
 					continue
 				}
 				fmt.Sscanf(w[2], "%d", &c.vnow)
@@ -2062,7 +2158,7 @@ func TestVerifGateReplay(t *testing.T) {
 				var id int
 				fmt.Sscanf(w[1], "%d", &id)
 				c := conns[id]
-				if c == nil || c.closed {
+				if c == nil || c.closed || c.poisoned {
 					continue
 				}
 				c.raw.Close()
